@@ -30,13 +30,25 @@ func (s *DataSemaphore) Acquire(weight dag.Metric, timeout time.Duration) bool {
 	deadline := time.Now().Add(timeout)
 	s.mu.Lock()
 	defer s.mu.Unlock()
+	var timer *time.Timer
 	for !s.tryAcquire(weight) {
-		if weight.Size > s.maxProcessing.Size || weight.Num > s.maxProcessing.Num || time.Now().After(deadline) {
+		if weight.Size > s.maxProcessing.Size || weight.Num > s.maxProcessing.Num || !time.Now().Before(deadline) {
 			return false
+		}
+		if timer == nil {
+			// cond.Wait() has no timeout: wake the waiters up once the deadline has passed
+			timer = time.AfterFunc(time.Until(deadline), s.broadcast)
+			defer timer.Stop()
 		}
 		s.cond.Wait()
 	}
 	return true
+}
+
+func (s *DataSemaphore) broadcast() {
+	s.mu.Lock()
+	defer s.mu.Unlock()
+	s.cond.Broadcast()
 }
 
 func (s *DataSemaphore) TryAcquire(weight dag.Metric) bool {
